@@ -53,6 +53,9 @@ CHECKS = {
     "C11": ("abstract interpretation with division axioms; table-chain agreement (writer/reader); E7 format-template decoding over all Display path partitions",
             "decompose: weighted sum of the seven integer outputs == |count|, ranges, sign; Display unit strings -> UNITS slots -> compose_f64 parameters -> TimeUnits methods -> the same weights; all 25 spellings; Display prints '-' iff negative, '0 ns' iff zero, exactly the non-zero components in order with single spaces; serde via Display/FromStr.",
             "3.C11"),
+    "C09": ("E6 float-exactness taint + interval evaluation by provenance; sibling-shape agreement; E7 format-template decoding with argument-flow checks",
+            "PARTIAL: no f64 view of the duration and only exact int->float casts in compute_gregorian's cone; forward/inverse Gregorian code share reference year, ranges, leap predicate, tables and offset (opposite sign); hour/minute/second/ns ranges and lossless casts; the eight writers' templates, argument order, scale and fraction guard; year/month_name from the same decomposition. Exact inversion of the day count by the year/month search is NOT decided.",
+            "3.C09"),
 }
 
 NOT_YET = {}
